@@ -8,6 +8,10 @@ ALLOWED_AXIOMS = {'propext', 'Classical.choice', 'Quot.sound'}
 FORBIDDEN = re.compile(r'\b(sorry|admit|native_decide|bv_decide|implemented_by|unsafe)\b|^\s*axiom\s|maxHeartbeats\s+0', re.M)
 
 
+import threading
+_scratch_lock = threading.Lock()
+
+
 class Ctx:
     def __init__(self, prop, tier, seed, repo='/repo', replay=None):
         self.prop = prop
@@ -27,11 +31,13 @@ class Ctx:
 
     # ---- scratch space (outside /repo, /verif and /tmp-for-registered-commands) ----
     def scratch_dir(self):
-        if self.scratch is None:
-            base = os.environ.get('VSB_VERIF_SCRATCH', '/var/tmp')
-            self.scratch = os.path.join(base, 'vsb-verif-%s-%d' % (self.prop, os.getpid()))
-            shutil.rmtree(self.scratch, ignore_errors=True)
-            os.makedirs(self.scratch)
+        with _scratch_lock:
+            if self.scratch is None:
+                base = os.environ.get('VSB_VERIF_SCRATCH', '/var/tmp')
+                d = os.path.join(base, 'vsb-verif-%s-%d' % (self.prop, os.getpid()))
+                shutil.rmtree(d, ignore_errors=True)
+                os.makedirs(d)
+                self.scratch = d
         return self.scratch
 
     def cleanup(self):
